@@ -123,19 +123,19 @@ func expandNames(n, style int, seed uint64, extra []gen.Hex) [][]byte {
 // nameGap proposes keys strictly between keys[i] and keys[j] (j = i+1);
 // i == -1 means below the minimum, j == len(keys) above the maximum.  The
 // caller filters the proposals with the model's order.
-func nameGap(keys [][]byte, i, j int) []pdf.Name {
+func nameGap(keys []pdf.Name, i, j int) []pdf.Name {
 	var out []pdf.Name
 	put := func(parts ...[]byte) {
 		out = append(out, pdf.Name(bytes.Join(parts, nil)))
 	}
 	if i >= 0 {
-		a := keys[i]
+		a := []byte(keys[i])
 		put(a, []byte{0})    // the immediate successor of a
 		put(a, []byte{0xff}) // a longer key sharing the prefix a
 		put(a, []byte{0, 0})
 	}
 	if j < len(keys) {
-		b := keys[j]
+		b := []byte(keys[j])
 		if len(b) > 0 {
 			put(b[:len(b)-1]) // the longest proper prefix of b
 			if last := b[len(b)-1]; last > 0 {
@@ -282,22 +282,23 @@ func expandNums(n, style int, seed uint64, extra []int64) []int64 {
 	return keys
 }
 
-func numGap(keys []int64, i, j int) []pdf.Integer {
+func numGap(ks []pdf.Integer, i, j int) []pdf.Integer {
+	at := func(x int) int64 { return int64(ks[x]) }
 	var out []pdf.Integer
 	put := func(k int64) { out = append(out, pdf.Integer(k)) }
 	if i >= 0 {
-		a := keys[i]
+		a := at(i)
 		if a < math.MaxInt64 {
 			put(a + 1)
 		}
-		if j < len(keys) {
-			b := keys[j]
+		if j < len(ks) {
+			b := at(j)
 			// midpoint without overflow
 			put(a + int64((uint64(b)-uint64(a))/2))
 		}
 	}
-	if j < len(keys) {
-		b := keys[j]
+	if j < len(ks) {
+		b := at(j)
 		if b > math.MinInt64 {
 			put(b - 1)
 		}
@@ -308,14 +309,14 @@ func numGap(keys []int64, i, j int) []pdf.Integer {
 			}
 		}
 	}
-	if j >= len(keys) {
+	if j >= len(ks) {
 		put(math.MaxInt64)
 		if i < 0 {
 			put(0)
 			put(-1)
 			put(math.MinInt64)
-		} else if keys[i] < math.MaxInt64-1000 {
-			put(keys[i] + 1000)
+		} else if at(i) < math.MaxInt64-1000 {
+			put(at(i) + 1000)
 		}
 	}
 	return out
